@@ -408,3 +408,185 @@ func connerrScenario(s *Sim, params map[string]string) {
 	s.DoneWhen(func() bool { return done })
 	s.AtEnd(func() { n.Shutdown() })
 }
+
+// ---------------------------------------------------------------------------
+// stallclose (C11): the network stalls in the middle of a response for longer
+// than the connection's deadline. The expiry is a transport-level error: the
+// operation that meets it may report it or (Batch.Close) swallow it, but the
+// one or two operations that follow — issued from separate goroutines, with a
+// fresh deadline — must return: with the model's value if the connection is
+// still aligned, with an error otherwise; never hang, never a foreign value.
+
+func init() { Scenarios["stallclose"] = stallcloseScenario }
+
+var scFirstOps = []int{1, 11, 12, 4, 5, 0, 3} // ReadBatch, short-buffer read, ReadBatch closed unread, ReadOffset, ReadPartitions, WriteMessages, ReadLastOffset
+
+const scSplits = 4 // where the stall begins: inside the 8-byte frame header, early, in the middle, before the last byte
+
+func StallCloseCases() int { return ceCfgs * len(scFirstOps) * scSplits * 2 * ceFollow }
+
+func stallcloseScenario(s *Sim, params map[string]string) {
+	n := NewNet(s)
+	n.MinLatency, n.MaxLatency = 200*time.Microsecond, 200*time.Microsecond
+	cl := NewCluster(s, n)
+	total := StallCloseCases()
+	idx := int((s.T.Run*7919 + s.T.Seed*104729) % uint64(total))
+	x := idx
+	follow := x % ceFollow
+	x /= ceFollow
+	two := x%2 == 1
+	x /= 2
+	split := x % scSplits
+	x /= scSplits
+	first := scFirstOps[x%len(scFirstOps)]
+	x /= len(scFirstOps)
+	cfg := x % ceCfgs
+
+	b := cl.AddBroker(1, "")
+	b.Versions[0] = [2]int16{0, []int16{2, 3, 8}[cfg]}
+	b.Versions[1] = [2]int16{0, []int16{3, 7, 11}[cfg]}
+	b.Versions[3] = [2]int16{0, []int16{1, 5, 8}[cfg]}
+	top := cl.AddTopic("ce", 1, func(int) int32 { return 1 })
+	cl.AddTopic("other", 3, func(int) int32 { return 1 })
+	p := top.Parts[0]
+	const base = int64(1600000000000)
+	p.LogStart, p.LEO = 5, 5
+	magic := int8(2)
+	if b.Versions[1][1] < 4 {
+		magic = 1
+	}
+	for k := 0; k < 6; k++ {
+		off := p.LEO
+		cl.AppendPhysical(p, rc.Batch{Magic: magic, BaseOffset: off, ProducerID: -1, ProducerEpoch: -1, BaseSequence: -1, FirstTimestamp: base + 10*off, MaxTimestamp: base + 10*off,
+			Records: []rc.Record{{Offset: off, Timestamp: base + 10*off, Value: []byte(fmt.Sprintf("ce/%d|", off))}}}, 1)
+	}
+	env := &ceEnv{s: s, cl: cl, p: p, topic: "ce"}
+	firstName := "ReadBatch closed unread"
+	api := int16(1)
+	if first != 12 {
+		firstName, api = ceOpNames[first], ceOpAPI[first]
+	}
+	desc := fmt.Sprintf("case %d: %s (produce<=v%d fetch<=v%d metadata<=v%d); its response stalls for 3s %s, the connection's deadline is 1s; then %s", idx, firstName,
+		b.Versions[0][1], b.Versions[1][1], b.Versions[3][1], []string{"inside the frame header", "after 12 bytes", "half-way", "before its last byte"}[split], ceOpNames[follow])
+	if two {
+		desc += " and, from a second goroutine, Brokers"
+	}
+	armed, fired := false, false
+	cl.MutateFrame = func(r *Req, frame []byte) []byte {
+		if armed && !fired && r.Hdr.APIKey == api {
+			fired = true
+			r.Fault = "split"
+			s.Count("fault:stall-mid-response")
+		}
+		return frame
+	}
+	cl.F.SplitMin, cl.F.SplitMax = 3*time.Second, 3*time.Second
+	cl.SplitAt = func(r *Req, n int) int {
+		k := []int{5, 12, n / 2, n - 1}[split]
+		if k >= n {
+			k = n - 1
+		}
+		if k < 1 {
+			k = 1
+		}
+		return k
+	}
+
+	type res struct {
+		done  bool
+		err   error
+		wrong string
+		took  time.Duration
+	}
+	var ra, rb, rc2 res
+	finished := false
+	s.Go("case", func() {
+		defer func() { finished = true }()
+		d := &kafka.Dialer{DialFunc: n.Dialer("ce"), ClientID: "ce", Timeout: 3 * time.Second}
+		ctx, cancel := context.WithTimeout(context.Background(), 10*time.Second)
+		conn, err := d.DialLeader(ctx, "tcp", b.Addr(), "ce", 0)
+		cancel()
+		if err != nil {
+			s.Fail("SIM", "stallclose-dial", "%v", err)
+			return
+		}
+		defer conn.Close()
+		env.conn = conn
+		conn.SetDeadline(time.Now().Add(5 * time.Second))
+		if _, err := conn.Seek(7, kafka.SeekAbsolute); err != nil {
+			s.Fail("SIM", "stallclose-seek", "%v", err)
+			return
+		}
+		if _, err := conn.ApiVersions(); err != nil {
+			s.Fail("SIM", "stallclose-warm", "%v", err)
+			return
+		}
+		conn.SetDeadline(time.Now().Add(time.Second))
+		armed = true
+		t0 := s.Now()
+		if first == 12 {
+			bt := conn.ReadBatch(1, 1<<20)
+			ra.err = bt.Close()
+		} else {
+			ra.err, ra.wrong = env.doOp(first, "a")
+		}
+		ra.took, ra.done = s.Now()-t0, true
+		armed = false
+		s.Count("ops")
+		// a fresh deadline for what follows
+		conn.SetDeadline(time.Now().Add(6 * time.Second))
+		t1 := s.Now()
+		if two {
+			s.Go("second", func() {
+				bs, err := conn.Brokers()
+				rc2.err = err
+				if err == nil && len(bs) != 1 {
+					rc2.wrong = fmt.Sprintf("Brokers returned %d brokers, cluster has 1", len(bs))
+				}
+				rc2.took, rc2.done = s.Now()-t1, true
+			})
+		}
+		rb.err, rb.wrong = env.doOp(follow, "b")
+		rb.took, rb.done = s.Now()-t1, true
+	})
+	s.DoneWhen(func() bool { return finished && (!two || rc2.done || !rb.done) })
+	s.AtEnd(func() {
+		defer n.Shutdown()
+		if !fired {
+			s.Fail("SIM", "stallclose-not-fired", "%s: fault did not fire", desc)
+			return
+		}
+		s.Count("nontrivial")
+		if !ra.done {
+			s.Fail("C11", "R4-hang", "%s: the first operation had not returned when the run ended (%s at %v)", desc, s.Ended, s.Now())
+			return
+		}
+		if ra.wrong != "" {
+			s.Fail("C11", "R3-wrong-value", "%s: first operation: %s", desc, ra.wrong)
+		}
+		if ra.took > time.Second+200*time.Millisecond {
+			s.Fail("C11", "R4-hang", "%s: the first operation returned after %v (deadline 1s)", desc, ra.took)
+		}
+		for i, r := range []*res{&rb, &rc2} {
+			who := []string{"the follow-up operation", "the second goroutine's Brokers call"}[i]
+			if i == 1 && !two {
+				continue
+			}
+			switch {
+			case !r.done:
+				s.Fail("C11", "R4-hang", "%s: %s had not returned when the run ended (%s at %v; first operation returned %v after %v)", desc, who, s.Ended, s.Now(), ra.err, ra.took)
+			case r.wrong != "":
+				s.Fail("C11", "R3-wrong-value", "%s: %s: %s", desc, who, r.wrong)
+			case r.took > 6*time.Second+200*time.Millisecond:
+				s.Fail("C11", "R4-hang", "%s: %s returned after %v (deadline 6s)", desc, who, r.took)
+			case ra.err != nil && !isKafkaErr(ra.err) && !errors.Is(ra.err, io.ErrShortBuffer) && r.err == nil:
+				s.Fail("C11", "R2-conn-reused-after-framing-error", "%s: the first operation failed with %v, yet %s succeeded on that connection", desc, ra.err, who)
+			}
+		}
+	})
+}
+
+func isKafkaErr(err error) bool {
+	var ke kafka.Error
+	return errors.As(err, &ke)
+}
